@@ -247,23 +247,32 @@ Definition written_surfaces {T : Type} (surfs : list (Z * desc T)) (dic : list (
   if forallb (fun s => match lookup s surfs with Some _ => true | None => false end) used
   then Ok used else Err EKey end.
 
-(* convertMCNPGeometry: `if not args.skip_deduplication:` *)
+(* convertMCNPGeometry: `if not args.skip_deduplication:` - surfaces
+   de-duplicated, volumes renumbered, and the two union helper planes mapped
+   through the renumbering as well (KeyError if they are not in the table) *)
 Definition dedup_stage {T : Type} (S : Scalar T) (skip_dedup : bool)
-    (surfs : list (Z * desc T)) (volus : list (Z * volu))
-  : res (list (Z * desc T) * list (Z * volu)) :=
-  if skip_dedup then Ok (surfs, volus)
+    (surfs : list (Z * desc T)) (volus : list (Z * volu)) (u0 u1 : Z)
+  : res (list (Z * desc T) * list (Z * volu) * (Z * Z)) :=
+  if skip_dedup then Ok (surfs, volus, (u0, u1))
   else let '(s', ren) := remove_duplicate_surfaces S surfs in
-       match renumber_surfaces volus ren with Ok v' => Ok (s', v') | Err e => Err e end.
+       match renumber_surfaces volus ren with
+       | Err e => Err e
+       | Ok v' =>
+           match lookup u0 ren, lookup u1 ren with
+           | Some a, Some b => Ok (s', v', (a, b))
+           | _, _ => Err EKey
+           end
+       end.
 
 (* convertMCNPGeometry after construct_volume_t4, then the SURF lines of
    writeT4Geometry: (surfaces, volumes, ids of the SURF lines written) *)
 Definition finish {T : Type} (S : Scalar T) (skip_dedup : bool)
     (surfs : list (Z * desc T)) (volus : list (Z * volu)) (u0 u1 : Z)
   : res (list (Z * desc T) * list (Z * volu) * list Z) :=
-  match dedup_stage S skip_dedup surfs volus with
+  match dedup_stage S skip_dedup surfs volus u0 u1 with
   | Err e => Err e
-  | Ok (s', v') =>
-      match remove_empty_volumes v' u0 u1 with
+  | Ok (s', v', (a, b)) =>
+      match remove_empty_volumes v' a b with
       | Err e => Err e
       | Ok v'' =>
           let v3 := remove_unused_volumes v'' in
@@ -422,6 +431,44 @@ Definition inline_cells (fuel : nat) (ti : list Z) (dic : list (Z * mcell)) : re
   match ti with
   | [] => Ok dic
   | _ => inline_loop fuel ti (map fst dic) dic
+  end.
+
+(* compute_inlining_scores + the selection in inline_cells: score 0 for a cell
+   mentioned at most once, else geometry_size / number of mentions (float
+   division of two ints); selected iff score < max_inline_score *)
+Fixpoint select_to_inline {T : Type} (S : Scalar T) (max_score : T) (dic : list (Z * mcell))
+    (occ : list (Z * list Z)) : res (list Z) :=
+  match occ with
+  | [] => Ok []
+  | (key, occurs) :: r =>
+      let n := List.length occurs in
+      let chosen :=
+        if Nat.leb n 1 then Ok (sltb S (sofZ S 0) max_score)
+        else match lookup key dic with
+             | None => Err EKey
+             | Some c => Ok (sltb S (sdiv S (sofZ S (Z.of_N (geometry_size (cgeom c))))
+                                            (sofZ S (Z.of_nat n))) max_score)
+             end in
+      match chosen with
+      | Err e => Err e
+      | Ok b => match select_to_inline S max_score dic r with
+                | Err e => Err e
+                | Ok l => Ok (if b then key :: l else l)
+                end
+      end
+  end.
+
+(* inline_cells(dic, max_inline_score) as a whole *)
+Definition inline_cells_score {T : Type} (S : Scalar T) (fuel : nat) (max_score : T)
+    (dic : list (Z * mcell)) : res (list (Z * mcell)) :=
+  match find_occurrences dic with
+  | Err e => Err e
+  | Ok [] => Ok dic
+  | Ok occ =>
+      match select_to_inline S max_score dic occ with
+      | Err e => Err e
+      | Ok ti => inline_cells fuel ti dic
+      end
   end.
 
 (* ---------- pot_fill ---------- *)
